@@ -1,6 +1,8 @@
 (* C12 -- Cache and CacheOf (and Map and MapOf) are observationally identical twins. *)
 From CacheV Require Import Base SpecMap Client CacheModel CacheOfModel Ops.
-From CacheV.proofs Require Import C12_twins.
+From CacheV Require Import TableModel.
+From CacheV.proofs Require Import C12_twins C11_lists C11_table C12_maps.
+From Coq Require Import NArith.
 
 (* The model of xsync_mapof.go and the model of xsync_map.go -- two texts written
    separately, each following its own Go file -- give, for every state and every
@@ -21,3 +23,23 @@ Theorem C12_cache_twins :
     run_cacheof eqd zero m ops = run_cache eqd zero m ops.
 Proof. exact @twins_run. Qed.
 Print Assumptions C12_cache_twins.
+
+(* Map and MapOf[string, interface{}] (variant false / true of the table model,
+   each with its own hash function, seeds, bucket size 3 / 5, index and tag
+   functions) -- and more generally any two instances, whatever their size hints
+   and resize histories -- answer every call sequence alike (Range as a set) and
+   end with the same contents. *)
+Theorem C12_map_twins :
+  forall (K V A : Type) (eqd : forall a b : K, {a = b} + {a <> b})
+      (hash1 hash2 : K -> N -> N) (idx1 idx2 : N -> nat -> nat) (tag1 tag2 : N -> N) (n1 n2 : nat)
+      (seeds1 seeds2 : nat -> N) (v1 v2 : bool) (g1 g2 s1 s2 : nat -> nat -> bool),
+    (forall h len, (0 < len)%nat -> (idx1 h len < len)%nat) ->
+    (forall h len, (0 < len)%nat -> (idx2 h len < len)%nat) ->
+    forall fuel1 fuel2 (ops : list (mop K V A)) (m1 m2 : @tmap K V) a m1' m2' rs1 rs2,
+      WFm hash1 idx1 tag1 n1 m1 -> meq eqd (abs n1 m1) a ->
+      WFm hash2 idx2 tag2 n2 m2 -> meq eqd (abs n2 m2) a ->
+      run_table eqd hash1 idx1 tag1 n1 seeds1 v1 g1 s1 fuel1 m1 ops = Some (m1', rs1) ->
+      run_table eqd hash2 idx2 tag2 n2 seeds2 v2 g2 s2 fuel2 m2 ops = Some (m2', rs2) ->
+      Forall2 res_equiv rs1 rs2 /\ meq eqd (abs n1 m1') (abs n2 m2').
+Proof. exact @two_instances. Qed.
+Print Assumptions C12_map_twins.
